@@ -18,7 +18,7 @@ def model_checks(rep, jobs):
         return
     taken = {}
     with cf.ThreadPoolExecutor(max_workers=len(jobs)) as ex:
-        futs = [ex.submit(tlc.run, m, c, workers=max(2, common.NCPU // len(jobs)), coverage=True, heap="6g") for m, c in jobs]
+        futs = [ex.submit(tlc.run, m, c, workers=max(2, common.NCPU // len(jobs)), coverage=True, heap="6g", timeout=7200) for m, c in jobs]
         for f in futs:
             res = f.result()
             tlc.need_ok(res)
